@@ -25,6 +25,7 @@ def jobs(tier):
     # BAM pacing while the job thread has other work that takes time (every send call of a pass takes 1 ms / 0.5 ms)
     J('h_orig_bam_busy', L=29, burst=12)
     J('h_orig_bam_busy', L=22, burst=30, tx='1/2000', interval='1/10')
+    J('h_orig_bam_busy', L=29, burst=6, first='bam', cmdt_interval='1/50')
     if not q:
         for burst in (3, 20, 45):
             for ivl in (None, '1/50', '1/10'):
